@@ -188,6 +188,9 @@ func generate(e *Engine, f *ssa.Function, sel map[string]bool) *Gen {
 	if con != nil && con.Trusted {
 		return nil
 	}
+	if e.isForwarder(f) {
+		return nil // a one-call wrapper without a contract: inlined (and so verified) at every call site
+	}
 	g := NewGen(e, f, con, sel)
 	func() {
 		defer func() {
